@@ -846,7 +846,11 @@ def t_dummy_zp(facts, res, tier):
             found = n
     res.inst("T-DUMMY-ZP:insert")
     if not found:
-        res.fail("T-DUMMY-ZP:insert", facts.where(fn), "DUMMY variable is not inserted in this configuration")
+        kept = [n for n in walk(fn["body"]) if n.get("k") == "mcall" and n["method"] in ("or_insert", "or_insert_with", "or_default") and '"DUMMY"' in expr_text(n["recv"])]
+        if kept:
+            res.fail("T-DUMMY-ZP:insert", facts.where(fn, kept[0]), "compile() keeps a variable of the program called DUMMY (`entry(..).%s`): csleep's STA DUMMY / DEC DUMMY then operate on that variable, whatever its memory class (a read-modify-write on split-port RAM)" % kept[0]["method"])
+        else:
+            res.fail("T-DUMMY-ZP:insert", facts.where(fn), "DUMMY variable is not inserted in this configuration")
         return
     lit = found["args"][1]
     f = {x["name"]: expr_text(x["e"]) for x in lit.get("fields", [])}
